@@ -6,6 +6,7 @@ import (
 	"errors"
 	"fmt"
 	"net"
+	"strings"
 	"sync"
 	"time"
 
@@ -33,6 +34,9 @@ type srvEvent struct {
 	Arg    int64  `json:"arg,omitempty"` // lsq: era of a shelley query / slot of an acquire; ltxsub: tx tag; psh: amount
 	OK     bool   `json:"ok"`            // acquire succeeded / tx accepted
 	// tx-monitor trajectory (filled by the reference model)
+	// local-state-query queries: what the server had acquired when it answered
+	// (slot of a specific point, -1 volatile tip, -2 immutable tip, 0 nothing)
+	Pt   int64 `json:"pt,omitempty"`
 	Snap int64 `json:"snap,omitempty"`
 	Idx  int   `json:"idx,omitempty"`
 	used bool
@@ -54,7 +58,14 @@ type srvLog struct {
 	slowKind  string
 	slowDelay time.Duration
 	slowDone  bool
+	curPt     int64 // server-side view of the acquired local-state-query point
 }
+
+const (
+	ptNone      = 0
+	ptVolatile  = -1
+	ptImmutable = -2
+)
 
 func (l *srvLog) stamp(kind string, serial int64) uint64 {
 	if kind == "point" && l.top {
@@ -90,6 +101,25 @@ func (l *srvLog) add(proto, kind string, stamped bool, arg int64, ok bool) *srvE
 		e.Serial = l.serial
 	}
 	e.T = l.clk.tick()
+	if proto == "lsq" {
+		switch {
+		case kind == "release":
+			l.curPt = ptNone
+		case strings.HasPrefix(kind, "acquire") || strings.HasPrefix(kind, "reacquire"):
+			switch {
+			case !ok:
+				l.curPt = ptNone // a refused (re-)acquire leaves the protocol idle
+			case strings.HasSuffix(kind, "V"):
+				l.curPt = ptVolatile
+			case strings.HasSuffix(kind, "I"):
+				l.curPt = ptImmutable
+			default:
+				l.curPt = arg
+			}
+		default:
+			e.Pt = l.curPt
+		}
+	}
 	l.events = append(l.events, e)
 	return e
 }
